@@ -7,6 +7,7 @@ import (
 	"io"
 	"regexp"
 	"strconv"
+	"strings"
 
 	"github.com/gregoryv/mq"
 
@@ -26,7 +27,7 @@ func init() {
 		Level: "fault_enumeration",
 		Rule: "the C01 packet enumeration plus malformed-but-constructible packets (QoS 3, no filters, no reason codes) and the zero value &T{} of every type, written to a scripted io.Writer. " +
 			"Success path (every packet): exactly one Write call whose bytes are exactly one frame (first byte of the type, minimal remaining-length field equal to the bytes that follow; for in-domain packets the specification decoder consumes them exactly), returned n == bytes accepted == frame length == the N printed by String() as 'N bytes'. " +
-			"every packet is also written to five other writer implementations (bufio.Writer with a 16- and a 4096-byte buffer, a writer of own type offering WriteString/WriteByte/ReadFrom, bytes.Buffer, strings.Builder): same bytes, same count, no error. Decoded path: every frame of the valid-frame language V is decoded and the decoded packet is written (success-path oracle). Fault path: for the bases, every single-field deviation and the size-ladder packets, the writer fails before writing (0,E) and after accepting k bytes (k,E) for EVERY k below the frame length (frames <= 4 KiB; for larger frames k in {0,1,2,every field boundary of the field map,len-1}): WriteTo must return exactly (k, E) having made one Write call; at k in {0,1,len/2,len-1} E additionally takes four other shapes (wrapping io.EOF, io.ErrUnexpectedEOF, io.ErrShortWrite; a net.Error-like value with Temporary() and Timeout() true) and the writer either keeps failing or accepts every later call. Undefined.WriteTo must fail without a Write call. Rewrite path: every packet type (constructor value, full packet, packet decoded from the full frame) written once, then changed through every setter (every pair from the full packet), then written again: the second write is judged by the success-path oracle. " +
+			"every packet is also written to five other writer implementations (bufio.Writer with a 16- and a 4096-byte buffer, a writer of own type offering WriteString/WriteByte/ReadFrom, bytes.Buffer, strings.Builder): same bytes, same count, no error. Decoded path: every frame of the valid-frame language V is decoded and the decoded packet is written (success-path oracle). Fault path: for the bases, every single-field deviation and the size-ladder packets, the writer fails before writing (0,E) and after accepting k bytes (k,E) for EVERY k up to and including the frame length (a writer may take everything and report an error all the same; frames <= 4 KiB; for larger frames k in {0,1,2,every field boundary of the field map,len-1}): WriteTo must return exactly (k, E) having made one Write call; at k in {0,1,len/2,len-1} E additionally takes four other shapes (wrapping io.EOF, io.ErrUnexpectedEOF, io.ErrShortWrite; a net.Error-like value with Temporary() and Timeout() true) and the writer either keeps failing or accepts every later call; in the latter case WriteTo is called once more on the same writer and must hand over the whole frame in one Write call (no resuming of the part-written frame). The bufio writers are one per size and process and hold stale bytes (0xa5) in their buffer memory before every use. Undefined.WriteTo must fail without a Write call. Rewrite path: every packet type (constructor value, full packet, packet decoded from the full frame) written once, then changed through every setter (every pair from the full packet), then written again: the second write is judged by the success-path oracle. " +
 			"distinct_nontrivial = distinct (packet, k) fault cases plus distinct packets on the success path.",
 		Assumptions: []string{
 			"E is a fresh error value per execution; identity is checked with errors.Is",
@@ -147,7 +148,7 @@ func c10FaultW(q mq.Packet, t byte, k int, desc string, ek env.ErrKind, recoverW
 	tname := bind.TypeNames[t]
 	resetGlobals()
 	E := env.NewError(ek, "W")
-	w := &env.Writer{FailAfter: k, E: E, Recover: recoverW}
+	w := &env.Writer{FailAfter: k, E: E, Recover: recoverW, ErrWhenFull: true}
 	var dst io.Writer = w
 	if rich {
 		dst = &env.RichWriter{W: w}
@@ -209,14 +210,15 @@ func c10FaultW(q mq.Packet, t byte, k int, desc string, ek env.ErrKind, recoverW
 }
 
 func c10Ks(frameLen int, fields []spec.Field) []int {
+	// k == frameLen: the writer takes the whole frame and reports an error all the same
 	if frameLen <= 4096 {
-		ks := make([]int, frameLen)
+		ks := make([]int, frameLen+1)
 		for i := range ks {
 			ks[i] = i
 		}
 		return ks
 	}
-	set := map[int]bool{0: true, 1: true, 2: true, frameLen - 1: true}
+	set := map[int]bool{0: true, 1: true, 2: true, frameLen - 1: true, frameLen: true}
 	for _, f := range fields {
 		if f.Start < frameLen {
 			set[f.Start] = true
@@ -318,8 +320,8 @@ func runC10(x *core.Ctx) {
 		// the other error shapes, and a writer that works again after its
 		// one failure, at four representative offsets
 		n := len(w.Buf)
-		for _, kk := range []int{0, 1, n / 2, n - 1} {
-			if kk < 0 || kk >= n {
+		for _, kk := range []int{0, 1, n / 2, n - 1, n} {
+			if kk < 0 || kk > n {
 				continue
 			}
 			x.Eval("fault-rich-writer." + stratum)
@@ -428,6 +430,40 @@ func runC10(x *core.Ctx) {
 			}
 		}
 	}
+	// a packet used as decode destination a second time: frame A decoded
+	// (ReadPacket), then the body of frame B of the same type decoded into
+	// the same value with UnmarshalBinary, then written: one frame and a
+	// truthful size are owed whatever A left behind
+	{
+		byType := map[byte][]VFrame{}
+		for _, v := range validCorpus() {
+			t := v.B[0] >> 4
+			keep := strings.HasSuffix(v.Name, ".min") || strings.HasSuffix(v.Name, ".rich") || len(byType[t]) < 2
+			if t == 1 && v.P != nil && v.P.Will != nil && len(byType[t]) < 12 {
+				keep = true
+			}
+			if keep && len(byType[t]) < 12 {
+				byType[t] = append(byType[t], v)
+			}
+		}
+		for _, t := range allTypes {
+			if !x.Mine() {
+				continue
+			}
+			for _, a := range byType[t] {
+				for _, b := range byType[t] {
+					a, b := a, b
+					x.Eval("decoded-into-used-packet")
+					x.Distinct(core.Hash(a.B, b.B))
+					if f := c10Reused(a.B, b.B); f != nil {
+						x.Report(f, func() core.Case {
+							return core.Case{Harness: "c10.reused", Frame: hexOf(a.B), Params: map[string]any{"second": hexOf(b.B)}}
+						}, func() *core.Finding { return c10Reused(a.B, b.B) })
+					}
+				}
+			}
+		}
+	}
 	// packets that come from the wire: every frame of the valid-frame
 	// language V (any property order, explicit zeros, short forms - also
 	// forms the library's own encoder never emits) is decoded and the
@@ -513,6 +549,25 @@ func c10Rewrite(s subject, ops []sop, init string, path []int) *core.Finding {
 	return c10Success(q, t, decodable, fmt.Sprintf("%s (%s) written once, then [%s], written again", s.Name, init, pathNames(ops, path)))
 }
 
+// c10Reused: frame a decoded by ReadPacket, the body of frame b (same type)
+// decoded into the returned packet, the packet written.
+func c10Reused(a, b []byte) *core.Finding {
+	resetGlobals()
+	q, err, res := readPacket(bytes.NewReader(append([]byte{}, a...)), stepBudget(len(a)))
+	if err != nil || q == nil || res.Panic != "" || res.Budget {
+		return nil
+	}
+	_, hn, _ := spec.ReadVarint(b[1:])
+	body := append([]byte{}, b[1+hn:]...)
+	alignPublishFlags(q, b[0])
+	var uerr error
+	res = guarded(stepBudget(len(b)), func() { uerr = q.UnmarshalBinary(body) })
+	if uerr != nil || res.Panic != "" || res.Budget {
+		return nil // C04/C14 judge decoding; here only what is written afterwards
+	}
+	return c10Success(q, b[0]>>4, false, fmt.Sprintf("packet decoded from %s, then the body of %s decoded into the same packet", abbrevHex(a), abbrevHex(b)))
+}
+
 // c10Undefined: a packet that cannot be serialised returns an error and
 // the writer sees no call - however the value was obtained.
 func c10Undefined(i int) *core.Finding {
@@ -570,6 +625,8 @@ func replayC10(c core.Case) *core.Finding {
 		}
 		c11Modify(q, t.Mod)
 		return c10Success(q, 1, false, t.describe())
+	case "c10.reused":
+		return c10Reused(unhex(c.Frame), unhex(paramStr(c.Params, "second")))
 	case "c10.undefined":
 		return c10Undefined(paramInt(c.Params, "index"))
 	case "c10.decoded":
